@@ -73,4 +73,5 @@ run C16 && mut C16 x/epochstorage/keeper/fixated_params.go '	} else if latestPar
 run C13 && mut C13 x/fixationstore/types/fixationstore.go '		if latestEntry.HasDeleteAt() {' '		if latestEntry.HasDeleteAt() && block > ctxBlock {'
 run C02 && mut C02 x/pairing/keeper/filters/frozen_providers_filter.go 'return stakeEntry.StakeAppliedBlock > currentEpoch' 'return stakeEntry.StakeAppliedBlock > currentEpoch+1000'
 run C20 && mut C20 x/conflict/keeper/vote.go '	halfTotalVotes := totalVotes.Quo(sdk.NewIntFromUint64(MajorityDiv))' '	halfTotalVotes := totalVotes.Quo(sdk.NewIntFromUint64(MajorityDiv)).SubRaw(1)'
+run C19 && mut C19 x/pairing/keeper/unresponsive_provider.go '		if len(epochs) != 0 && existingProviders[chainID] > minProviders {' '		if len(epochs) != 0 && existingProviders[chainID] >= minProviders {'
 exit 0
